@@ -51,6 +51,11 @@ struct Shared {
     done: AtomicU64,
     stop: AtomicBool,
     ops_done: AtomicU64,
+    /// read-side failures are injected into the server in this episode: a GET may then end with its
+    /// connection closed instead of a reply (the client reconnects)
+    faulty: bool,
+    port: u16,
+    gets_ended_by_a_failure: AtomicU64,
 }
 
 fn problem(sh: &Shared, sig: &str, desc: String) {
@@ -124,6 +129,18 @@ fn one_op(sh: &Shared, c: &mut Client, tid: u32, r: &mut Rng) {
                 sh.hist[ki].lock().unwrap().push(Op { thread: tid, kind: k, call, ret });
             }
         }
+        Err(e) if sh.faulty && which == 1 && !matches!(e, ReadErr::Timeout) => {
+            // the store could not read (injected failure of open/mmap): the server ends the connection
+            // without a reply. A GET has no effect; go on with a fresh connection
+            sh.gets_ended_by_a_failure.fetch_add(1, Ordering::Relaxed);
+            match connect(sh.port).and_then(|s| s.try_clone().map(|t| (s, t))) {
+                Ok((s, t)) => *c = Client { tx: t, rx: Rx::new(s), retired: false },
+                Err(e) => {
+                    problem(sh, "connect-failed", format!("connection {}: could not reconnect after a failed GET: {}", tid, e));
+                    c.retired = true;
+                }
+            }
+        }
         Err(e) => {
             // no reply: the command may still take effect later; keep it open and retire the connection
             let how = match e {
@@ -183,7 +200,13 @@ fn episode(ctx: &Ctx, case: u64, out: &mut Out) {
         }
     };
     let keys: Vec<Vec<u8>> = (0..nkeys).map(|i| format!("key-{}", i).into_bytes()).collect();
+    // a quarter of the episodes: now and then one open-for-reading or mmap of a data file fails in the
+    // server (EIO / EMFILE), under a GET or under the background merge
+    let faulty = case % 4 == 2;
     let sh = Arc::new(Shared {
+        faulty,
+        port: srv.port,
+        gets_ended_by_a_failure: AtomicU64::new(0),
         keys: keys.clone(),
         hist: (0..nkeys).map(|_| Mutex::new(Vec::new())).collect(),
         problems: Mutex::new(Vec::new()),
@@ -247,6 +270,11 @@ fn episode(ctx: &Ctx, case: u64, out: &mut Out) {
     let mut segs_done = 0u64;
     'seg: for seg in 0..segments {
         ctx.breadcrumb(case, &format!("segment {}", seg));
+        if faulty && r.chance(1, 3) {
+            if srv.arm_fault(shim::C_OPENRD | shim::C_MMAP, shim::F_DATA, r.below(4) as i64, if r.chance(1, 2) { libc::EIO } else { libc::EMFILE }) {
+                out.count("read_side_failures_armed_in_server", 1);
+            }
+        }
         sh.done.store(0, Ordering::Release);
         sh.go.store(seg + 1, Ordering::Release);
         let t0 = Instant::now();
@@ -260,9 +288,21 @@ fn episode(ctx: &Ctx, case: u64, out: &mut Out) {
         // quiescent reads through the coordinator's own connection
         let mut quiescent: Vec<Option<u64>> = Vec::new();
         for (ki, k) in keys.iter().enumerate() {
-            let call = stamp();
-            let res = request(&mut coord, &command(&[b"GET", k]));
-            let ret = stamp();
+            let mut call = stamp();
+            let mut res = request(&mut coord, &command(&[b"GET", k]));
+            let mut ret = stamp();
+            let mut tries = 0;
+            while faulty && tries < 5 && matches!(res, Err(ReadErr::Eof) | Err(ReadErr::Reset(_))) {
+                // the coordinator's own GET ran into the injected failure
+                tries += 1;
+                sh.gets_ended_by_a_failure.fetch_add(1, Ordering::Relaxed);
+                if let Ok((s, t)) = connect(port).and_then(|s| s.try_clone().map(|t| (s, t))) {
+                    coord = Client { tx: t, rx: Rx::new(s), retired: false };
+                }
+                call = stamp();
+                res = request(&mut coord, &command(&[b"GET", k]));
+                ret = stamp();
+            }
             match res {
                 Ok(RFrame::Null) => {
                     sh.hist[ki].lock().unwrap().push(Op { thread: 999, kind: Kind::Get(None), call, ret });
@@ -324,6 +364,10 @@ fn episode(ctx: &Ctx, case: u64, out: &mut Out) {
     }
     let st = srv.stats();
     out.count("episodes", 1);
+    if faulty {
+        out.count("episodes_with_read_side_failures", 1);
+        out.count("gets_ended_by_an_injected_failure", sh.gets_ended_by_a_failure.load(Ordering::Relaxed));
+    }
     out.count("segments", segs_done);
     out.count("commands", sh.ops_done.load(Ordering::Relaxed));
     out.count("merges_observed_in_server", st["hint_files_created"].as_u64().unwrap_or(0));
